@@ -119,3 +119,52 @@ Proof.
   intros se H. simpl in H.
   repeat (destruct H as [<-|H]; [vm_compute; repeat split; reflexivity|]). contradiction.
 Qed.
+
+(* ================= compressor values reused for several builds ================= *)
+(* the value after a sequence of builds *)
+Definition comp_run (st : cstate) (l : list step) : cstate := fold_left comp_after l st.
+
+(* external TOC: after ANY sequence of builds that ends with a successful external-TOC build, WriteTOCTo hands out
+   the TOC of that last build, whatever the earlier builds were and whatever the value held before *)
+Lemma ext_toc_is_last_build : forall st pre c b,
+  step_fmt c = FExt -> step_blob c = Ok b ->
+  write_toc_to (comp_run st (pre ++ [c])) = Some (b_toc b).
+Proof.
+  intros st pre c b F B. unfold comp_run. rewrite fold_left_app. simpl.
+  unfold comp_after. rewrite F, B. reflexivity.
+Qed.
+
+(* a failed build (it never reaches WriteTOCAndFooter) leaves the registered TOC untouched, so does a build of
+   another format *)
+Lemma ext_toc_kept : forall st c,
+  (step_fmt c <> FExt \/ forall b, step_blob c <> Ok b) -> comp_after st c = st.
+Proof.
+  intros st c [F|B]; unfold comp_after.
+  - destruct (step_fmt c); try reflexivity. contradiction.
+  - destruct (step_fmt c); try reflexivity. destruct (step_blob c) eqn:E; try reflexivity. exfalso. exact (B a eq_refl).
+Qed.
+
+(* gzip and zstd:chunked compressor values carry nothing: a sequence of such builds leaves the value as it was *)
+Lemma plain_comp_stateless : forall l st,
+  Forall (fun c => step_fmt c <> FExt) l -> comp_run st l = st.
+Proof.
+  induction l as [|c l IH]; intros st F; [reflexivity|].
+  inversion F as [|? ? Fc Fl]; subst. unfold comp_run. simpl. rewrite (ext_toc_kept st c (or_introl Fc)). apply IH. exact Fl.
+Qed.
+
+(* the TOC handed out after every build of a sequence, step by step *)
+Fixpoint tocs_after (st : cstate) (l : list step) : list (option (list tocent)) :=
+  match l with
+  | [] => []
+  | c :: t => write_toc_to (comp_after st c) :: tocs_after (comp_after st c) t
+  end.
+
+Lemma tocs_after_each : forall l st k c b,
+  nth_error l k = Some c -> step_fmt c = FExt -> step_blob c = Ok b ->
+  nth_error (tocs_after st l) k = Some (Some (b_toc b)).
+Proof.
+  induction l as [|x l IH]; intros st k c b N F B; [destruct k; discriminate|].
+  destruct k as [|k]; simpl in *.
+  - injection N as ->. unfold comp_after. rewrite F, B. reflexivity.
+  - apply (IH _ _ _ _ N F B).
+Qed.
